@@ -241,3 +241,33 @@ def star_before_keyword_walrus(tree):
                             if isinstance(n, ast.Name) and isinstance(n.ctx, ast.Load) and n.id in bound:
                                 out[(n.lineno, n.col_offset)] = n.id
     return out
+
+
+def dead_code_positions(tree):
+    """positions (line, col) of every Name/def/class/handler binding located in statements that follow a return / raise /
+    break / continue in the same block: nothing there can execute, so a binding there reaches no read"""
+    out = set()
+
+    def mark(stmts):
+        for st_ in stmts:
+            for n in ast.walk(st_):
+                if isinstance(n, ast.Name) and isinstance(n.ctx, ast.Store):
+                    out.add((n.lineno, n.col_offset))
+                elif isinstance(n, (ast.FunctionDef, ast.AsyncFunctionDef, ast.ClassDef)):
+                    out.add(('line', n.lineno))
+                elif isinstance(n, ast.alias):
+                    out.add(('line', n.lineno))
+
+    for node in ast.walk(tree):
+        for field in ('body', 'orelse', 'finalbody'):
+            stmts = getattr(node, field, None)
+            if isinstance(stmts, list) and stmts and isinstance(stmts[0], ast.stmt):
+                for i, st_ in enumerate(stmts):
+                    if isinstance(st_, (ast.Return, ast.Raise, ast.Break, ast.Continue)):
+                        mark(stmts[i + 1:])
+                        break
+    return out
+
+
+def in_dead_code(dead, site):
+    return tuple(site) in dead or ('line', site[0]) in dead
